@@ -176,7 +176,7 @@ def valToAtom : Val K → Except Err (Atom K)
 
 def evalKwVal (T : Tables K) : KwVal → Except Err (Option (Val K))
   | .one v => some <$> evalArgVal T v
-  | .list [] => .ok none                       -- `[ ]`: no vallist child, key is not set
+  | .list [] => .ok none                       -- `[ ]`: no vallist child, the key is not set
   | .list vs => do
     let xs ← vs.mapM fun v => do valToAtom (← evalArgVal T v)
     .ok (some (.list xs))
